@@ -42,6 +42,8 @@ class C05(WrapHarness):
         out.append(dict(base, mode='fill', gen='sym1', n=3 if q else 4, le='CRLF', bw=False))
         out += std_tmpl_spaces(dict(base, algo='F'), q, variants=False, cind=True, mode='paths')
         out += std_tmpl_spaces(dict(base, algo='F'), q, variants=False, cind=True, mode='fill')
+        if q:
+            out += tmpl_spaces(dict(base, algo='F', ind='si', imax=1), ['hyphens', 'wide'], mode='fits')
         if not q:
             out += std_tmpl_spaces(dict(base, algo='F', ind='both', imax=1), q, variants=False, mode='fits')
             out += tmpl_spaces(dict(base, wmax=1 << 16), ['short', 'longword', 'paras'], mode='paths')
